@@ -532,7 +532,7 @@ def _flat(app_map):
 
 # ----------------------------------------------------------------------
 def h_load(ctx, shapes, bufs, sizes, tries, modes, nn_starts, pres,
-           rebuilt=False, reliable=False):
+           rebuilt=False, reliable=False, via_context=False):
     from models.net import World
     from models.machine import ControllerPatch
     from harness.c12 import well_formed, pair_lt, beq
@@ -611,7 +611,19 @@ def h_load(ctx, shapes, bufs, sizes, tries, modes, nn_starts, pres,
             machine.structs = mc.structs
             mc._nn_id = nn0
             try:
-                if len(amap) == 1 and ctx.choose(2):
+                if via_context:
+                    # wait and n_tries come from an enclosing block, the
+                    # application id explicitly (or the other way round)
+                    if ctx.choose(2):
+                        with mc(wait=wait, n_tries=n_tries):
+                            mc.load_application(amap, app_id=app_id,
+                                                use_count=use_count)
+                    else:
+                        with mc(app_id=app_id, wait=wait):
+                            mc.load_application(amap, n_tries=n_tries,
+                                                use_count=use_count)
+                    ctx.witness("options from a block")
+                elif len(amap) == 1 and ctx.choose(2):
                     # the (file name, targets) form of the call
                     (fname, ftargets), = amap.items()
                     mc.load_application(fname, ftargets, app_id=app_id,
@@ -904,6 +916,10 @@ def units(tier, seed):
         pres=(True,) if q else (False, True), split=7,
         witnesses=W + ("waiting core under the same app id",
                        "waiting core under another app id"))
+    # the options of the call taken from an enclosing block
+    unit("options from an enclosing block", shapes=("2 chips 3 cores",),
+         tries=(0, 1), via_context=True, split=6,
+         witnesses=W + ("options from a block",))
     # a large map on a machine that misses nothing (no fault booleans): the
     # region list of a collapsing block is what the loader is sent
     unit("16x16 block, reliable machine", shapes=("16x16 block + 2 cores",),
